@@ -96,6 +96,17 @@ PROPS = {
         "rule": "the probes of stream ytypes: for every generated type, every bound of every range part +/- one unit, the width bounds +/- 1, 18-19 digit values, signs, leading zeros, "
                 "blanks, hex/exponent forms, multi-byte strings at the length bounds; compared: Type.Validate verdict per probe with the model and with the exact value-space specification",
     },
+    "C17": {
+        "streams": {"ypath": {"quick": 3000, "thorough": 150000, "spec_proj": "path"}},
+        "trusted": ["the projection of an implementation error (tag, path, message class) onto (index, reason) is done by bin/check (project 'path'), mirroring Spec.YPathS.proj",
+                    "leaf types are those of C13/C16 (Model.YTypes / Spec.YTypesS)"],
+        "modelled": ["lists with more than one key: the code validates only the first key (its own TODO); generated lists have one key",
+                     "opd:command / opd:option / opd:argument nodes (vendor operational vocabulary) are outside the model",
+                     "choice.Validate / ycase.Validate are unreachable from a tree (choices are never in a child map) and modelled as such"],
+        "rule": "random schemas (containers with and without presence, single-key lists, leaves and leaf-lists of nine types, choices with 1-3 cases nested to depth 2-4) compiled by the real compiler; "
+                "12 token paths per schema: random valid walks, then truncated / extended by one or two tokens / one token replaced by a foreign node name, a choice or case name, junk, or a value of another type / "
+                "a token inserted or deleted; each validated with and without AllowIncompletePaths; compared: ok or (error tag, error path, bad element, message class) with the model, and (index of the offending token, reason) with the specification",
+    },
     "C04": {
         "streams": {"xsmall": {"quick": 1, "thorough": 1, "spec_proj": "accept"},
                     "xfuzz": {"quick": 30000, "thorough": 1000000, "spec_proj": "accept"}},
